@@ -75,7 +75,9 @@ func c04MetricDocs(rng *Rng, tag string) []string {
 		case 3:
 			d = fmt.Sprintf(`{"name":"%s","action":"observe","value":%s,"buckets":[1,2.5,%s]}`, name+"_h", c04Num(rng), PickOne(rng, []string{"5", "1e1", "5.0"})) // increasing: a histogram that cannot be created is dropped silently (C16 findings)
 		case 4:
-			d = fmt.Sprintf(`{"group":"grp%d","name":"%s","action":"add","value":1,"labels":{"x":"\u0041\n\"q\""}}`, rng.Intn(2), name+"_gc")
+			// the name carries the group: one series written by two groups stays owned by the first (C16 finding)
+			g := rng.Intn(2)
+			d = fmt.Sprintf(`{"group":"grp%d","name":"%s%d","action":"add","value":1,"labels":{"x":"\u0041\n\"q\""}}`, g, name+"_gc", g)
 		case 5:
 			d = fmt.Sprintf(`{"group":"grp%d","action":"expire"}`, rng.Intn(2))
 		case 6:
